@@ -17,7 +17,8 @@ SPEC = dict(
           "The probe of a pair itself (is_coupled_protonation_state_probability with all its gates) is modelled: on every path the pair "
           "ends untouched or swapped twice (probe_state), hence restored and up to date (probe_restores, probe_keeps_uptodate), and its "
           "three scaling factors lie in [0, 1]; the real probe is driven on stub pairs with random thresholds and compared with the model "
-          "(state afterwards, gate taken, returned values).",
+          "(state afterwards, gate taken, returned values). "
+          "identify models the whole search (the probes of all visited pairs in turn, each writing back the state it leaves on its two groups); identify_preserves: for any list of pairs of two different groups, any thresholds, energy function and intrinsic pKa values, every group ends with the results it had before the search and is up to date.",
     note="Exact arithmetic: in floats a swap-swap changes the summation order, so restored pKa values are compared to 1e-9, not "
          "bitwise. Label-based membership tests (`in`) are modelled by label identity; the display mode (-d) is covered by C02/C03.",
     technique="Lean 4 proof (list permutations, invariants over call sequences) + differential correspondence + on/off metamorphic runs",
